@@ -358,7 +358,7 @@ Lemma read_byte_extends c la : forall fuel s idx pb acc,
   exists new, fst (read_byte fuel s idx pb c la acc) = new ++ acc.
 Proof.
   induction fuel as [|fuel IH]; intros s idx pb acc; cbn [read_byte]; [exists []; reflexivity|].
-  destruct (call call_fuel c la (s_step s) s) as [s1|code|]; try (exists []; reflexivity).
+  destruct (call call_fuel c la pb (s_step s) s) as [s1|code|]; try (exists []; reflexivity).
   destruct (process_finds _ _ _ _ _ _) as [[stk' acc'] ok] eqn:Ep.
   destruct (process_finds_extends _ _ _ _ _ _ _ _ _ Ep) as [new ->].
   destruct ok; [|exists new; reflexivity].
@@ -503,4 +503,39 @@ Example schema_len_trailer_with_slash :
   schema_len (bytes_of [91; 49; 44; 32; 50; 93; 10; 47; 47; 32; 120]%N) = VLen 6 /\
   schema_len (bytes_of [91; 49; 44; 32; 50; 93; 32; 47; 47; 32; 120]%N) = VErr 304 7 /\
   schema_len (bytes_of [49; 32; 47]%N) = VErr 303 2.
+Proof. vm_compute. repeat split; reflexivity. Qed.
+
+(* ================================================================== *)
+(* 6. CRLF layout (fix 542fa4b) and a block comment opened in the tail of an inline annotation
+      (fix 0196ace)                                                      *)
+(* ================================================================== *)
+(* {"a":1, // x CR LF "b":2}  and the same with LF alone *)
+Definition crlf_text : bytes :=
+  bytes_of [123; 34; 97; 34; 58; 49; 44; 32; 47; 47; 32; 120; 13; 10; 34; 98; 34; 58; 50; 125]%N.
+Definition lf_text : bytes :=
+  bytes_of [123; 34; 97; 34; 58; 49; 44; 32; 47; 47; 32; 120; 10; 34; 98; 34; 58; 50; 125]%N.
+Definition ev_types (evs : list lexev) : list N := map (fun e => ev_code (e_type e)) evs.
+Definition not_newline (e : lexev) : bool := match e_type e with NewLine => false | _ => true end.
+Example crlf_layout :
+  snd (scan false crlf_text) = Done /\ snd (scan false lf_text) = Done /\
+  ev_types (filter not_newline (fst (scan false crlf_text))) =
+  ev_types (filter not_newline (fst (scan false lf_text))) /\
+  length (fst (scan false crlf_text)) = S (length (fst (scan false lf_text))) /\
+  (* the CR closes the annotation (NewLine at 12), the LF is one more NewLine at 13, and the next key
+     is found in the same step *)
+  map (fun e => (ev_code (e_type e), e_begin e, e_end e)) (firstn 4 (skipn 10 (fst (scan false crlf_text)))) =
+    [(13, 8, 11); (20, 12, 12); (20, 13, 13); (4, 14, 14)]%N.
+Proof. vm_compute. repeat split; reflexivity. Qed.
+
+(* "1 // x ### c" LF "d ###" LF: the ### after the annotation text opens a block comment that ends
+   on the next line; the text is accepted, the annotation text is "x" (5..6), and Len is 18 (the
+   whole text without its last line break) *)
+Definition annotation_then_block_comment : bytes :=
+  bytes_of [49; 32; 47; 47; 32; 120; 32; 35; 35; 35; 32; 99; 10; 100; 32; 35; 35; 35; 10]%N.
+Example annotation_then_block_comment_scan :
+  map (fun e => (ev_code (e_type e), e_begin e, e_end e)) (fst (scan false annotation_then_block_comment)) =
+    [(0, 0, 0); (1, 0, 0); (12, 2, 3); (14, 5, 5); (15, 5, 6); (13, 2, 6); (20, 18, 18)]%N /\
+  snd (scan false annotation_then_block_comment) = Done /\
+  scan true annotation_then_block_comment = scan false annotation_then_block_comment /\
+  schema_len annotation_then_block_comment = VLen 18.
 Proof. vm_compute. repeat split; reflexivity. Qed.
